@@ -697,7 +697,16 @@ func (ev *Env) call(x *ast.CallExpr) Val {
 		return boolV(and("(<= "+ev.pre.get(ev.fx, "G|alloc")+" "+r+")", "(< "+r+" "+ev.post.get(ev.fx, "G|alloc")+")"))
 	case "allocated":
 		v := arg(0)
-		return boolV("(< " + v.L[len(v.L)-1] + " " + ev.cur.get(ev.fx, "G|alloc") + ")")
+		r := v.L[0]
+		if v.T != nil && isByteSlice(v.T) && !v.Mut {
+			r = v.L[1]
+		}
+		if v.T != nil {
+			if _, ok := v.T.Underlying().(*types.Interface); ok {
+				r = v.L[1]
+			}
+		}
+		return boolV("(< " + r + " " + ev.cur.get(ev.fx, "G|alloc") + ")")
 	case "has":
 		m, k := arg(0), arg(1)
 		if k.T != nil && (isByteSlice(k.T) || isString(k.T)) {
